@@ -92,6 +92,11 @@ PROCESS_CANON = hashlib.sha256(
     b"U32 n = MIN(size, (block_size - curlen_)); COPY curlen_ += n; in += n; size -= n; "
     b"if (curlen_ == block_size) { COMPRESS(state_, buf_); length_ += 8 * block_size; curlen_ = 0; } } }").hexdigest()
 
+# process(tlx::string_view): pieces of 2^30 bytes while more than 2^30 remain (Model/C14Class.lean `svPieces`)
+PROCESS_SV_CANON = ("const char* data = str.data(); size_t size = str.size(); const size_t piece = size_t(1) << 30; "
+                    "while (size > piece) { process(data, static_cast<std::uint32_t>(piece)); data += piece; size -= piece; } "
+                    "return process(data, static_cast<std::uint32_t>(size));")
+
 COPY_FORMS = [
     "std::copy(in, in + n, buf_ + curlen_);",
     "std::uint8_t* b = buf_ + curlen_; for (const std::uint8_t* a = in; a != in + n; ++a, ++b) { *b = *a; }",
@@ -109,8 +114,9 @@ def check_process(src, cls, compress, what, problems):
     if hashlib.sha256(t.encode()).hexdigest() != PROCESS_CANON:
         problems.append(f"{what}: process() differs from the buffering state machine modelled in Model/C14Class.lean: {t[:300]}")
     sv = norm(func_body(src, r"void " + cls + r"::process\(tlx::string_view str\)\s*\{", what))
-    if sv != "return process(str.data(), str.size());":
-        problems.append(f"{what}: process(string_view) is not `return process(str.data(), str.size())`: {sv}")
+    if sv != PROCESS_SV_CANON:
+        problems.append(f"{what}: process(string_view) differs from the piece loop modelled as `svPieces` in "
+                        f"Model/C14Class.lean: {sv}")
 
 
 def check_finalize(src, cls, compress, store_len, store_out, nstate, wbytes, what, problems):
